@@ -331,7 +331,7 @@ func c03Run(r *ev.Run) {
 		Lmax = 19
 	}
 	cfgs := c03Lattice(r.Thorough())
-	r.Rule = fmt.Sprintf("every motion bit-string (events {1=motion frame, 0=still frame}, real detector) of length min(%d, cap+2*maxF+3) for every configuration of the C03 lattice (fps 1..3, min-secs 0..4(5), max-secs up to min+4(5), preview-secs {0,1}, trigger-frames {0,1,2}); plus the general recorder lattice with <=1 deviation (bad frame, reset, refused starts, a motion-sink StopRecording that returns an error on a still/motion/bad frame or reset) to depth 10(12), plus the C03 lattice itself with <=1 failing stop (on a still, motion or bad frame) to depth min(%d, cap+2*maxF+3); and an explicit-state search to a FIXPOINT over {1,0} for every configuration of the C03 lattice (motion patterns of any length, incl. configurations whose two-recording horizon exceeds the tree depth). Oracle: per recording, counted from the trigger frame, stop exactly at the first offset p >= min(q+minF-1, maxF) with q the latest motion offset. Non-trivial = execution with at least one recording.", Lmax, Lmax-3)
+	r.Rule = fmt.Sprintf("every motion bit-string (events {1=motion frame, 0=still frame}, real detector) of length min(%d, cap+2*maxF+3) for every configuration of the C03 lattice (fps 1..3, min-secs 0..4(5), max-secs up to min+4(5), preview-secs {0,1}, trigger-frames {0,1,2}); plus the general recorder lattice with <=1 deviation (bad frame, reset, refused starts, a motion-sink StopRecording that returns an error on a still/motion/bad frame or reset) to depth 10(12), plus the C03 lattice itself with <=1 failing stop (on a still, motion or bad frame) to depth min(%d, cap+2*maxF+3); and an explicit-state search to a FIXPOINT over {1,0} for every configuration of the C03 lattice (motion patterns of any length, incl. configurations whose two-recording horizon exceeds the tree depth). Oracle: per recording, counted from the trigger frame, stop exactly at the first offset p >= min(q+minF-1, maxF) with q the latest motion offset. Non-trivial = execution with at least one recording.", Lmax, map[bool]int{false: 12, true: 13}[r.Thorough()])
 	r.Bounds["depth_cap"] = Lmax
 	r.Bounds["c03_lattice_configurations"] = len(cfgs)
 	r.Assumptions = []string{"motion per frame is read from the observed MotionDetected callbacks; C03 and C04 additionally require those callbacks to agree with the generated frame content (beacon pixel toggled or not)", "configurations whose cap+2*maxF+3 exceeds the depth cap are covered to the cap only (reported per run in depth_limited_configurations)"}
@@ -357,11 +357,15 @@ func c03Run(r *ev.Run) {
 	// A failing StopRecording IS a deviation here (round-8 seed): the unchanged code closes the recording and
 	// zeroes its counters whether or not the sink's stop reports an error, so every later recording must still
 	// have the stated length. "<k>fmx" = event k during which the motion sink's StopRecording returns an error.
+	Ls := 12 // depth of the failing-stop trees on the C03 lattice (13 thorough: the 19-deep lattice times a deviation position is out of budget)
+	if r.Thorough() {
+		Ls = 13
+	}
 	devStop := append(append([]string{}, devRecorder...), devStopFails...)
 	jobs = append(jobs, jobsFor(procLattice(fps, "raw", "day"), []string{"1", "0"}, devStop, Ld, 1)...)
 	for _, c := range cfgs {
 		c.Via = "raw"
-		jobs = append(jobs, jobsFor([]PCfg{c}, []string{"1", "0"}, []string{"0fmx", "1fmx", "Bfmx"}, imin(Lmax-3, imax(c.Cap()+2*c.MaxF()+3, 8)), 1)...)
+		jobs = append(jobs, jobsFor([]PCfg{c}, []string{"1", "0"}, []string{"0fmx", "1fmx", "Bfmx"}, imin(Ls, imax(c.Cap()+2*c.MaxF()+3, 8)), 1)...)
 	}
 	capStates := 60000
 	if r.Thorough() {
